@@ -13,12 +13,19 @@ import topo
 SFX = re.compile(r"x(\d{4})x")
 BUILTIN = {"Int", "String", "Boolean", "Float", "Any", "Nothing", "List", "Map", "Set", "Tuple"}
 FOREIGN = '''from __future__ import annotations
-from collections import Counter, OrderedDict
+from collections import Counter, OrderedDict, deque
+from collections.abc import Sized
 from decimal import Decimal
+from email.parser import Parser
+from html.parser import HTMLParser
 from pathlib import Path
 
 
 def ff(p: Path, o: OrderedDict[str, int], c: Counter[str]) -> Decimal:
+    ...
+
+
+def fg(s: Sized, d: deque[int], a: Parser, b: HTMLParser) -> int:
     ...
 
 
@@ -138,7 +145,11 @@ def main(v: Verdict) -> None:
         for u in us[c:c + size]:
             files.update(scenario_files(u, root))
         if c == 0:
+            from pygen import FOREIGN_LIB, FOREIGN_LIB_USE
             files["formod.py"] = FOREIGN
+            files["flibuse.py"] = FOREIGN_LIB_USE
+            packs.append(write_pkg(files, root, siblings=FOREIGN_LIB))
+            continue
         packs.append(write_pkg(files, root))
     jobs, meta = [], []
     for d in packs:
